@@ -353,6 +353,15 @@ centroid = _outside("centroid")
 intersection = _outside("intersection")
 
 
+class GeometryCollection(_Multi):
+    """heterogeneous collection: only a container of its parts (bounds, mapping, burning part by part)"""
+
+    geom_type = "GeometryCollection"
+
+    def __init__(self, geoms=None):
+        super().__init__(list(geoms or []))
+
+
 def _module(name, **attrs):
     m = types.ModuleType(name)
     m.__dict__.update(attrs)
@@ -367,6 +376,7 @@ _common = dict(
     MultiPoint=MultiPoint,
     MultiLineString=MultiLineString,
     MultiPolygon=MultiPolygon,
+    GeometryCollection=GeometryCollection,
     box=box,
 )
 geometry = _module("shapely.geometry", **_common)
